@@ -18,7 +18,7 @@ if [ "${MUT_TESTS:-0}" = 1 ]; then
 fi
 rc=0
 for P in "$@"; do
-  /verif/bin/amcheck -p "$P" -tier quick -repo "$S/repo" -out "$S/ev" -known /verif/known_findings.json >"$S/out.$P" 2>&1
+  "${AMCHECK:-/verif/bin/amcheck}" -p "$P" -tier quick -repo "$S/repo" -out "$S/ev" -known /verif/known_findings.json >"$S/out.$P" 2>&1
   code=$?
   if [ $code -ne 0 ]; then got=fire; else got=silent; fi
   if [ "$got" = "$EXPECT" ]; then
